@@ -74,14 +74,17 @@ Fixpoint pmatch (ts : list ptok) (s : string) (acc : env) : option env :=
          match pmatch r (suf ++ rest) (snoc acc nm (pre)) with Some e => Some e | None => try more end
        end) (prefixes_desc d)
   | PUnix nm :: r =>
-    let '(d1, rest1) := span_digits s in
+    let '(sg, s0) := match s with
+                     | String c t => if Ascii.eqb c "-" then ("-", t) else ("", s)
+                     | EmptyString => ("", s) end in
+    let '(d1, rest1) := span_digits s0 in
     if String.eqb d1 "" then None
     else
       let '(sep, rest2) := match rest1 with
                            | String c r2 => if Ascii.eqb c "," || Ascii.eqb c "." then (String c "", r2) else ("", rest1)
                            | EmptyString => ("", rest1) end in
       let '(d2, rest3) := span_digits rest2 in
-      pmatch r rest3 (snoc acc nm (d1 ++ sep ++ d2))
+      pmatch r rest3 (snoc acc nm (sg ++ d1 ++ sep ++ d2))
   end.
 
 Local Open Scope Z_scope.   (* Z comparisons take precedence over the string ones *)
